@@ -12,7 +12,11 @@
 namespace hz {
 
 // Returns "" when clean, else a description; `sig` gets a short signature.
-inline std::string ledger_problems(const std::map<int, FdId> &fds_before, std::string &sig, bool check_children = true)
+// Children are not judged here: a child that was started successfully and never
+// successfully waited for may legitimately remain (documented: the caller must
+// wait); the properties that care (C04, C05 failed start; C15 default destroy)
+// check that themselves.
+inline std::string ledger_problems(const std::map<int, FdId> &fds_before, std::string &sig, bool check_children = false)
 {
   std::string out;
   auto add = [&](const std::string &s, const std::string &m) {
